@@ -17,11 +17,11 @@ RULE = ('frames with 1-5 locals of which 1-2 are hostile (bytes, datetime, deque
         'non-string-keyed dicts, objects whose str/repr/len/getattr/getattribute/eq/hash/bool/iter/__class__ raise '
         '(incl. BaseException), generators, iterators, modules, functions, lone surrogates, huge ints ...) placed '
         'directly, inside containers, as attribute, as watch result, as return value or as raised exception; 1-4 '
-        'tracepoints on the same line (separate triggers or merged actions); non-trivial = a hostile value was in '
+        'tracepoints on the same line (separate triggers or merged actions), optionally also logging the hostile value through a logger that writes UTF-8 lines; non-trivial = a hostile value was in '
         'reach of a due action; distinct by (hostile class, placement, tracepoint count, sibling skeleton)')
 ASSUMPTIONS = ['placeholder text for an unrenderable value may be anything', 'children of hostile values are not required']
 REQUIRE = {'due_actions': 300, 'hostile_classes_seen': 40, 'multi_tracepoint_events': 50, 'capture_cases': 20,
-           'watch_cases': 20}
+           'watch_cases': 20, 'logged_cases': 100, 'logger_rejected_the_text': 4}
 
 
 def plan(tier, seed):
@@ -84,6 +84,16 @@ def case_hostile(seed, out, spec, wd, idx):
         case.mod = hostframe.load(case.path)
         case.line = line = hostframe.markers(case.path)['hit']
     ids = ['tp%d' % i for i in range(ntp)]
+    # some tracepoints also log the hostile value through an ordinary logger that writes UTF-8 lines: whatever the
+    # logger makes of the text, the snapshots of the event are still due
+    field = {'local': names[pos], 'two': names[pos], 'in_list': '%s[1]' % names[pos], 'in_dict': "%s['h']" % names[pos],
+             'attr': '%s.bad' % names[pos]}.get(placement)
+    logged = field is not None and (r.chance(0.3) or kind.startswith('lone_surrogate'))
+    args = {'log_msg': 'saw {%s} here' % field} if logged else {}
+    from vf import plugins as vplugins
+    stream_logger = vplugins.Utf8StreamLogger() if logged else None
+    if logged:
+        case.rig.config.plugins = list(case.rig.config.plugins) + [stream_logger]
     if capture:
         trigs = [direct_trigger(ids[0], base, None, 'Snapshot', {'stage': 'method_capture', 'watches': list(watches)},
                                 function='leaf')]
@@ -91,12 +101,12 @@ def case_hostile(seed, out, spec, wd, idx):
         ntp = 1
     elif merged and ntp > 1:
         from deep.api.tracepoint.trigger import Trigger
-        t0 = line_trigger(ids[0], base, line, {}, watches)
+        t0 = line_trigger(ids[0], base, line, dict(args), watches)
         for i in ids[1:]:
-            t0.merge_actions(line_trigger(i, base, line, {}, watches).actions)
+            t0.merge_actions(line_trigger(i, base, line, dict(args), watches).actions)
         trigs = [t0]
     else:
-        trigs = [line_trigger(i, base, line, {}, watches) for i in ids]
+        trigs = [line_trigger(i, base, line, dict(args), watches) for i in ids]
     probs = snapcheck.Problems()
     st = {'snaps': [], 'hit': 0}
 
@@ -133,6 +143,10 @@ def case_hostile(seed, out, spec, wd, idx):
         out.count('multi_tracepoint_events')
     if placement == 'watch':
         out.count('watch_cases')
+    if logged:
+        out.count('logged_cases')
+        if stream_logger.rejected:
+            out.count('logger_rejected_the_text')
     out.case({'k': kind, 'p': placement, 'n': ntp, 'm': merged, 'names': names,
               'sib': [type(v).__name__ for v in values]}, nontrivial=True,
              sample=dict(witness, delivered=len(st['snaps'])))
